@@ -8,7 +8,7 @@
  * with Hread / Hwrite / Hseek routed through logging shims, so that the transfers the Vdata layer issues and its
  * private transfer-buffer size are observable (R-vs-M correspondence).  Everything else comes from the static library.
  *
- * ops (V = vdata slot 0..7):
+ * ops (V = vdata / handle slot 0..15; every op below takes a handle slot):
  *   new V                      VSattach(f, -1, "w")                           -> ok | fail
  *   define V name type order   VSfdefine                                       -> ok | fail
  *   setil V il                 VSsetinterlace                                  -> ok | fail
@@ -18,6 +18,7 @@
  *   read V n il                VSread into an exact-size heap buffer           -> ok n hex | fail
  *   detach V                   VSdetach                                        -> ok | fail
  *   attach V r|w               VSattach(f, ref, mode)                          -> ok | fail
+ *   attachto H V r|w           a further VSattach of the vdata of slot V, kept in handle slot H (8..15) -> ok | fail
  *   reopen                     Vend + Hclose + Hopen + Vstart                  -> ok | fail
  *   inquire V                  VSinquire                                       -> ok nrec il eltsize nfields names | fail
  *   elts V                     VSelts                                          -> ok n | fail
@@ -85,7 +86,7 @@ static int shim_Hseek(int32 aid, int32 off, int origin)
 #undef Hseek
 
 /* ---- helpers -------------------------------------------------------------------------------------- */
-#define NV 8
+#define NV 16
 static int32 fid = FAIL;
 static int32 vid[NV];
 static int32 vref[NV];
@@ -389,6 +390,16 @@ static void run_history(const char *dir, char **lines, long *lnos, long nlines)
                     }
                     printf("%ld ok\n", ln);
                 }
+            }
+        }
+        else if (!strcmp(op, "attachto")) {
+            /* a further attachment (handle slot v) of the vdata created in slot a */
+            sscanf(line, "%*s %ld %ld %s", &v, &a, s1);
+            if (a < 0 || a >= NV || vref[a] < 0 || vid[v] != FAIL) { printf("%ld fail\n", ln); }
+            else {
+                int32 id = VSattach(fid, vref[a], s1);
+                if (id == FAIL) printf("%ld fail\n", ln);
+                else { vid[v] = id; vref[v] = vref[a]; printf("%ld ok\n", ln); }
             }
         }
         else if (!strcmp(op, "reopen")) {
